@@ -77,6 +77,20 @@ pub const DECLS: &[(&str, &str)] = &[
   ("const-object-call-then-literal", "function mk@N(): number { return 1; }\nexport const c@N = { a: mk@N(), b: 1 };\n"),
   ("const-template-call-then-literal", "function mk@N(): number { return 1; }\nexport const c@N = `${mk@N()}-${1}`;\n"),
   ("fn-default-between-required", "export function f@N(first: string, value: number = 1, last: @R): void {}\nexport class CB@N { m(a: @R, b = true, c: number, d = 2): void {} constructor(x: number, y: @R = null as any, z: string) {} }\nexport const ab@N = (p: number, q: string = \"q\", r: @R): void => {};\n"),
+  ("leav-bin-call-left", "function mk@N(): number { return 1; }\nexport const c@N = mk@N() + 1;\n"),
+  ("leav-bin-call-right", "function mk@N(): number { return 1; }\nexport const c@N = 1 + mk@N();\n"),
+  ("leav-cond-call-test", "function mk@N(): number { return 1; }\nexport const c@N = mk@N() ? 1 : 2;\n"),
+  ("leav-cond-call-cons", "function mk@N(): number { return 1; }\nexport const c@N = true ? mk@N() : 2;\n"),
+  ("leav-cond-call-alt", "function mk@N(): number { return 1; }\nexport const c@N = true ? 1 : mk@N();\n"),
+  ("leav-member-computed-call", "function mk@N(): number { return 1; }\nexport const c@N = [1, 2][mk@N()];\n"),
+  ("leav-member-of-call-object", "function mk@N(): number { return 1; }\nexport const c@N = [mk@N()].length;\n"),
+  ("leav-object-spread-first", "function mk@N(): number { return 1; }\nexport const c@N = { ...[mk@N()], a: 1 };\n"),
+  ("leav-object-spread-last", "function mk@N(): number { return 1; }\nexport const c@N = { a: 1, ...[mk@N()] };\n"),
+  ("leav-array-spread-first", "function mk@N(): number { return 1; }\nexport const c@N = [...[mk@N()], 1];\n"),
+  ("leav-seq-then-literal", "function mk@N(): number { return 1; }\nexport const c@N = (mk@N(), 1);\n"),
+  ("leav-unary-of-call", "function mk@N(): number { return 1; }\nexport const c@N = -mk@N();\n"),
+  ("leav-as-const-with-call", "function mk@N(): number { return 1; }\nexport const c@N = [mk@N(), 1] as const;\n"),
+  ("leav-nested-object-call-first", "function mk@N(): number { return 1; }\nexport const c@N = { o: { x: mk@N(), y: 1 }, z: 2 };\n"),
   ("const-array-with-call", "function mk@N(): number { return 1; }\nexport const c@N = [1, mk@N()];\n"),
   ("const-object-value-call", "function mk@N(): number { return 1; }\nexport const c@N = { a: 1, b: mk@N() };\n"),
   ("const-object-spread-call", "function mk@N(): object { return {}; }\nexport const c@N = { a: 1, ...mk@N() };\n"),
@@ -184,6 +198,7 @@ pub const DECLS: &[(&str, &str)] = &[
 pub const B_BASE: &str = "export interface BT { b: number }\nexport type BU = string;\nexport const bv: number = 1;\nexport class BC { x: number = 1; }\nexport namespace BN { export type Y = number; }\nexport function helper(): number { return 1; }\nexport default class DefB { d: number = 1; }\nconst unusedInB = 1;\n";
 
 pub const SLOT0_ONLY: &[&str] = &[
+  "leav-bin-call-left", "leav-bin-call-right", "leav-cond-call-test", "leav-cond-call-cons", "leav-cond-call-alt", "leav-member-computed-call", "leav-member-of-call-object", "leav-object-spread-first", "leav-object-spread-last", "leav-array-spread-first", "leav-seq-then-literal", "leav-unary-of-call", "leav-as-const-with-call", "leav-nested-object-call-first",
   "class-expression", "class-expression-named-extends", "index-signature", "constructor-overloads", "enum-referencing-private",
   "declare-module-augmentation", "type-predicates", "this-return-and-rest", "es-private-and-static-block", "accessor-pair",
   "as-const-and-tuples", "conditional-and-recursive-types", "literal-initialisers", "new-with-type-arguments",
